@@ -317,7 +317,7 @@ def canonAtSlot (pr : PA) (anchor : Root) (slot : Nat) (withBlock : Bool) : POut
       | .panic => .panic
       | .spin => .spin
       | .ok pr' head =>
-        if head.slot ≤ slot then .ok pr' head else
+        if head.slot < slot then .ok pr' head else
         let index := (aGet pr'.indices head).getD 0
         match pr'.canonWalk slot withBlock (index + 1) (some index) with
         | .found r => .ok pr' r
@@ -428,29 +428,20 @@ inductive LoopRes where
 
 /-- the loop of `Search` over `pr.nodes[i]`, `i = k, k+1, …` -/
 def searchLoop (pr : PA) (anchorIndex headIndex : Idx) (head : NodeRef) (parentRoot : Option Root)
-    (slot : Option Nat) : List Node → List NodeRef → List NodeRef → LoopRes
+    (slot : Option Nat) (hasChildBlock : List Root) : List Node → List NodeRef → List NodeRef → LoopRes
   | [], nc, c => .done nc c
   | node :: rest, nc, c =>
-    let next := searchLoop pr anchorIndex headIndex head parentRoot slot rest
+    let next := searchLoop pr anchorIndex headIndex head parentRoot slot hasChildBlock rest
     if node.ref.root = node.parentRoot then next nc c else
-    -- `skip`: the filter of the loop body; `none` = panic
-    let skip : Option Bool :=
-      if parentRoot.isNone && slot.isNone then
-        if node.bestChild.isSome then
-          match node.bestDesc with
-          | none => none
-          | some d =>
-            match pr.nodes[d]? with
-            | none => none
-            | some desc => some (desc.ref.root ≠ node.ref.root)
-        else some false
+    -- `skip`: the filter of the loop body
+    let skip : Bool :=
+      if parentRoot.isNone && slot.isNone then hasChildBlock.contains node.ref.root
       else
-        some ((match parentRoot with | some p => node.parentRoot ≠ p | none => false) ||
-              (match slot with | some s => node.ref.slot ≠ s | none => false))
+        ((match parentRoot with | some p => node.parentRoot ≠ p | none => false) ||
+         (match slot with | some s => node.ref.slot ≠ s | none => false))
     match skip with
-    | none => .oob
-    | some true => next nc c
-    | some false =>
+    | true => next nc c
+    | false =>
       let index := (aGet pr.indices node.ref).getD 0
       if pr.inSubtreeSpins anchorIndex index then .spin else
       match pr.inSubtreeIdx anchorIndex index with
@@ -470,7 +461,12 @@ def search (pr : PA) (anchor : NodeRef) (parentRoot : Option Root) (slot : Optio
   | .ok pr' head =>
     let anchorIndex := (aGet pr'.indices anchor).getD 0
     let headIndex := (aGet pr'.indices head).getD 0
-    match pr'.searchLoop anchorIndex headIndex head parentRoot slot pr'.nodes [] [] with
+    -- the set `hasChildBlock` (only filled for a search without options): the parent roots of the block nodes
+    let hasChildBlock : List Root :=
+      if parentRoot.isNone && slot.isNone then
+        (pr'.nodes.filter (fun n => n.ref.root ≠ n.parentRoot)).map (·.parentRoot)
+      else []
+    match pr'.searchLoop anchorIndex headIndex head parentRoot slot hasChildBlock pr'.nodes [] [] with
     | .oob => .panic
     | .spin => .spin
     | .done nc c => .ok pr' (nc, c)
